@@ -154,11 +154,13 @@ REF_BASES = [
     # (schema with a reference, store) — keywords are inserted next to the $ref
     lambda idk: ({"definitions": {"t": {"type": "integer"}}, "properties": {"a": {"$ref": "#/definitions/t"}}}, None),
     lambda idk: ({"definitions": {"t": {"type": "integer"}}, "items": [{"$ref": "#/definitions/t"}]}, None),
+    lambda idk: ({"properties": {"v": {"type": "integer"}, "kids": {"items": {"$ref": ""}}}}, None),
+    lambda idk: ({"properties": {"v": {"type": "integer"}, "kids": {"items": {"$ref": "#"}}}}, None),
     lambda idk: ({idk: "http://h.invalid/root.json", "definitions": {"t": {"type": "string"}},
                   "properties": {"a": {"$ref": "other.json#/d"}, "b": {"$ref": "#/definitions/t"}}},
                  {"http://h.invalid/other.json": {"d": {"type": "integer"}}}),
 ]
-UREF = [{"a": 0}, {"a": "a"}, {"a": "a", "b": 0}, [0], ["a"], {}, 1]
+UREF = [{"a": 0}, {"a": "a"}, {"a": "a", "b": 0}, [0], ["a"], {}, 1, {"kids": [{"v": "x"}, {"v": 1, "kids": [{}]}]}]
 
 ID_BASES = [
     # a relative reference *beneath* the insertion point makes a base change visible
